@@ -150,4 +150,17 @@ theorem exBad_safe : TextSafe eaWidth 4 true exBad :=
 def exScroll : List (Nat × Bytes) :=
   [(0, exLong), (1, exRed), (2, exLong), (4, exTail), (2, exShort), (3, exBad)]
 
+/-! ### iteration (for the loops of the translated `goTo`) -/
+
+/-- `f` applied `n` times, innermost first -/
+def iter {α : Type} (f : α → α) : Nat → α → α
+  | 0, a => a
+  | n + 1, a => iter f n (f a)
+
+theorem iter_add (d : Int) : ∀ (k : Nat) (i : Int), iter (fun i => i + d) k i = i + d * k := by
+  intro k
+  induction k with
+  | zero => intro i; simp [iter]
+  | succ k ih => intro i; simp only [iter, ih]; rw [Int.natCast_succ, Int.mul_add]; omega
+
 end Rare.C20
